@@ -2,7 +2,7 @@
 property's own domain and observables, (3) search for a concrete failing input when (1) or (2) breaks."""
 import json, os, random, sys, time
 import vlib, gens
-import props_split, props_quote
+import props_split, props_quote, props_tree
 from vlib import Result, hexs, unhex, log
 
 
@@ -35,15 +35,26 @@ def c20(res, st):
     n = 5 if res.tier == "quick" else 7
     go = vlib.run_lines(vlib.HARNESS, ["file-exh", str(n)])
     md = vlib.run_lines(vlib.DRIVER, ["file-exh", str(n)])
-    # (b) random larger texts
+    # (a') histories: the same queries on ONE File per text, ascending and then descending (Position must be a function
+    # of (text, pos, end): a File is reused for every error of a parse)
+    hist = vlib.run_lines(vlib.HARNESS, ["file-exh-h", str(n - 1)])
+    md1 = vlib.run_lines(vlib.DRIVER, ["file-exh", str(n - 1)])
+    asc = [l for l in hist if not l.startswith("D ")]
+    desc = [l[2:] for l in hist if l.startswith("D ")]
+    # per text the ascending block is followed by the descending block; both must equal the model's block
+    go += asc + desc
+    md += md1 + md1
+    res.extra["history_queries"] = len(asc) + len(desc)
+    # (b) random larger texts, several queries per text in random order on one File
     cases = []
-    for _ in range(1500 if res.tier == "quick" else 20000):
+    for _ in range(400 if res.tier == "quick" else 5000):
         t = gens.random_text_lines(rnd)
-        a = rnd.randrange(len(t) + 1)
-        b = rnd.randrange(a, len(t) + 1)
-        cases.append("%s %d %d" % (hexs(t), a, b))
+        for _ in range(5):
+            a = rnd.randrange(len(t) + 1)
+            b = rnd.randrange(a, len(t) + 1)
+            cases.append("%s %d %d" % (hexs(t), a, b))
     inp = "\n".join(cases) + "\n"
-    go += vlib.run_lines(vlib.HARNESS, ["file-cases"], inp)
+    go += vlib.run_lines(vlib.HARNESS, ["file-cases-h"], inp)
     md += vlib.run_lines(vlib.DRIVER, ["file-cases"], inp)
     in_dom = out_dom = out_dom_diff = 0
     distinct = set()
@@ -174,7 +185,7 @@ def c13(res, st):
                         "token.KeywordsMap is read through the translator (Gen/Keywords.v)"]
 
 
-CHECKS = {"C20": c20, "C13": c13, "C15": lambda res, st: props_quote.c15(res, st, std_coq), "C12": lambda res, st: props_split.c12(res, st, std_coq, lexer_inputs)}
+CHECKS = {"C19": lambda res, st: props_tree.c19(res, st, std_coq), "C17": lambda res, st: props_tree.c17(res, st, std_coq), "C20": c20, "C13": c13, "C15": lambda res, st: props_quote.c15(res, st, std_coq), "C12": lambda res, st: props_split.c12(res, st, std_coq, lexer_inputs)}
 
 
 def run(pid, tier, seed):
